@@ -13,7 +13,7 @@
 
    Events: Reset{tr, segs[[addr,len,w]], src[size,salt], dirty0}  Op{o, op, n, x, c, res, ret, data,
    out, all[[id,avail,done]], diff[[addr,len,v]], dirty[[page,cnt]], msgs[[[v,len]]], fpos, fdiff,
-   spos, canary, new}  End{diff, dirty, msgs}  New{o, what, res, err}  Abort{op}  Crash{signal, op};  containers (tr = "fvs"):
+   spos, canary, new}  End{diff, dirty, msgs}  New{o, what, res, err}  Abort{op}  Crash{signal, op}  Probe{op, res, signal, n, x, salt, v, ret, out|fdiff};  containers (tr = "fvs"):
    Op{o, op, a, n, v, res, ret, out, win, new, newwin, content, canary}.
    Byte strings are ramps <<v, len>> (Transport.tla). *)
 EXTENDS Transport, Json, IOUtils, TLC, Integers
@@ -137,6 +137,12 @@ FvsReadOps  == {"fvs.read", "fvs.read_slice", "fvs.load", "fvs.write_volatile_to
 FvsWriteOps == {"fvs.write", "fvs.write_slice", "fvs.store", "fvs.read_volatile_from", "fvs.read_exact_volatile_from"}
 FvsExactOps == {"fvs.read_slice", "fvs.load", "fvs.write_all_volatile_to", "fvs.write_slice", "fvs.store", "fvs.read_exact_volatile_from"}
 FvsMustOk   == FvsExactOps \ {"fvs.load", "fvs.store"}     \* load/store may also refuse misaligned addresses
+\* exact transfers between a window of the container and a file through the DEFAULT methods of FileReadWriteVolatile
+\* (read_exact[_at]_volatile, write_all[_at]_volatile) over a backend that moves 1..3 bytes per call:
+\* [a, a + n) of the container <-> [x, x + n) of the file, or failure
+FtRead  == {"ft.read_exact_at", "ft.read_exact"}        \* file -> container
+FtWrite == {"ft.write_all_at", "ft.write_all"}          \* container -> file
+FtOps   == FtRead \cup FtWrite
 Base == ob[1].off
 WinOf(x) == IF x.k = "S" THEN <<x.off, x.len, IF x.len = 0 THEN 1 ELSE 0>>
             ELSE <<x.off, x.size, x.len, IF x.size = 0 THEN 1 ELSE 0, x.size, x.off + x.size, x.len - x.size>>
@@ -145,11 +151,11 @@ JudgeFvs(r) ==
   LET o == r.o  x == ob[o]  a == r.a  n == r.n  op == r.op
       ok == r.res = "ok"
       \* bytes moved: the returned count of a partial operation, all n of an exact one, none on failure
-      k == IF ~ok THEN 0 ELSE IF op \in FvsExactOps THEN n ELSE IF Has(r, "ret") THEN r.ret ELSE 0
+      k == IF ~ok THEN 0 ELSE IF op \in (FvsExactOps \cup FtOps) THEN n ELSE IF Has(r, "ret") THEN r.ret ELSE 0
       at == x.off - Base + a                                     \* position in the backing buffer
       inside == k = 0 \/ a + k <= x.len
-      data == << <<r.v, k>> >>
-      ncont == IF op \in FvsWriteOps /\ ok /\ inside THEN Splice(cont, at, data)
+      data == IF op \in FtRead THEN << <<r.x + src[2], k>> >> ELSE << <<r.v, k>> >>
+      ncont == IF op \in (FvsWriteOps \cup FtRead) /\ ok /\ inside THEN Splice(cont, at, data)
                ELSE IF op = "buf.fill" THEN Splice(cont, x.off - Base + x.size, data)
                ELSE cont
       nview == IF op = "fvs.offset" THEN [k |-> "S", off |-> x.off + a, len |-> x.len - a, size |-> 0]
@@ -165,11 +171,20 @@ JudgeFvs(r) ==
       \* a failing write of the underlying VolatileSlice may have stored the part that fitted
       \* (vm-memory reports PartialBuffer afterwards); as a view that is still consistent
       fit == IF a < x.len THEN Min(n, x.len - a) ELSE 0
-      partial == op \in FvsWriteOps /\ ~ok /\ r.content = Ramps(Splice(cont, at, << <<r.v, fit>> >>))
+      favail == IF r.x < src[1] THEN Min(n, src[1] - r.x) ELSE 0      \* (ft.read*) bytes the file has at x
+      partial == \/ op \in FvsWriteOps /\ ~ok /\ r.content = Ramps(Splice(cont, at, << <<r.v, fit>> >>))
+                 \/ op \in FtRead /\ ~ok /\ r.content = Ramps(Splice(cont, at, << <<r.x + src[2], favail>> >>))
+      expfile == RampZ(ZipR(<< <<r.x, n>> >>, SubR(cont, at, n)))        \* (ft.write*) what the file must receive
       V == (IF r.content # Ramps(ncont) /\ ~partial
-              THEN Vi(IF op \in FvsWriteOps \/ op = "buf.fill" THEN "placed" ELSE "mem-modified",
+              THEN Vi(IF op \in (FvsWriteOps \cup FtRead) \/ op = "buf.fill" THEN "placed" ELSE "mem-modified",
                       <<r.content, Ramps(ncont)>>) ELSE {}) \cup
            (IF ~r.canary THEN Vi("oob", r.content) ELSE {}) \cup
+           (IF op \in FtRead /\ r.x + n <= src[1] /\ ~ok THEN Vi("spurious-failure", <<r.x, n, src[1], r.res>>) ELSE {}) \cup
+           (IF op \in FtRead /\ r.x + n > src[1] /\ n > 0 /\ ok THEN Vi("exceed-not-failed", <<r.x, n, src[1]>>) ELSE {}) \cup
+           (IF op \in FtRead /\ r.fdiff # <<>> THEN Vi("bytes", r.fdiff) ELSE {}) \cup
+           (IF op \in FtWrite /\ ~ok THEN Vi("spurious-failure", <<r.x, n, r.res>>) ELSE {}) \cup
+           (IF op \in FtWrite /\ ok /\ r.fdiff # expfile THEN Vi("bytes", <<r.fdiff, expfile>>) ELSE {}) \cup
+           (IF op \in {"ft.read_exact", "ft.write_all"} /\ ok /\ r.fpos # r.x + n THEN Vi("filepos", <<r.fpos, r.x + n>>) ELSE {}) \cup
            (IF ok /\ ~inside /\ op \in (FvsReadOps \cup FvsWriteOps) THEN Vi("exceed-not-failed", <<a, k, x.len>>) ELSE {}) \cup
            (IF ok /\ (op \in FvsReadOps \/ op = "buf.peek") /\ (~Has(r, "out") \/ r.out # expout)
               THEN Vi("bytes", <<IF Has(r, "out") THEN r.out ELSE <<>>, expout>>) ELSE {}) \cup
@@ -191,7 +206,7 @@ Reset(r) ==
   /\ IF r.tr = "fvs" THEN
         /\ ob' = << [k |-> "S", off |-> r.segs[1][1], len |-> r.segs[1][2], size |-> 0] >>
         /\ cont' = << <<r.segs[1][1], r.segs[1][2]>> >>
-        /\ src' = <<0, 0>>
+        /\ src' = IF Has(r, "src") THEN r.src ELSE <<0, 0>>
         /\ TRUE = (r.win = <<r.segs[1][1], r.segs[1][2], IF r.segs[1][2] = 0 THEN 1 ELSE 0>> \/ Viol("C04|fvs.new|window", r.win))
      ELSE
         /\ ob' = << Obj("R", SegRuns(r.segs, 0)), Obj(IF r.tr = "fusedev" THEN "F" ELSE "W", SegRuns(r.segs, 1)) >>
@@ -252,6 +267,14 @@ Step ==
             /\ UNCHANGED <<tr, ob, fp, sp, src, cont, dirt, dirty0, modBy, dirtyBy>>
        [] r.e = "Abort" ->      \* the driver itself could not go on with what the code under test handed back
             /\ TRUE = Viol("C04|" \o r.op \o "|harness-aborted", r.seg)
+            /\ UNCHANGED <<tr, ob, fp, sp, src, cont, broken, dirt, dirty0, modBy, dirtyBy>>
+       [] r.e = "Probe" ->      \* one call through a forwarding impl (Arc<File>), run in a child process: n bytes at file offset x
+            /\ TRUE = IF r.res = "crash" THEN Viol("C04|" \o r.op \o "|crash", r.signal)
+                      ELSE IF r.res # "ok" THEN Viol("C04|" \o r.op \o "|spurious-failure", r.res)
+                      ELSE IF r.ret # r.n THEN Viol("C04|" \o r.op \o "|ret", <<r.ret, r.n>>)
+                      ELSE IF r.reading /\ r.out # Ramps(<< <<r.x + r.salt, r.n>> >>) THEN Viol("C04|" \o r.op \o "|bytes", r.out)
+                      ELSE IF ~r.reading /\ r.fdiff # RampZ(<< <<r.x, r.n, r.v>> >>) THEN Viol("C04|" \o r.op \o "|bytes", r.fdiff)
+                      ELSE TRUE
             /\ UNCHANGED <<tr, ob, fp, sp, src, cont, broken, dirt, dirty0, modBy, dirtyBy>>
        [] r.e = "Crash" ->      \* the process running the code under test died (signal): memory safety is part of C04
             /\ TRUE = Viol("C04|" \o r.op \o "|crash", r.signal)
